@@ -47,9 +47,15 @@ func (j DecJ) Build() *apd.Decimal {
 	}
 	d.Coeff.SetMathBigInt(b)
 	if j.Heap {
-		// grow beyond the inline array, then shrink: leaves a heap-backed small value
-		d.Coeff.Lsh(&d.Coeff, 200)
-		d.Coeff.Rsh(&d.Coeff, 200)
+		if b.Sign() == 0 {
+			// a heap-backed zero: a value beyond the inline array minus itself (a BigInt never moves back inline)
+			d.Coeff.SetMathBigInt(new(big.Int).Lsh(big.NewInt(1), 200))
+			d.Coeff.Sub(&d.Coeff, &d.Coeff)
+		} else {
+			// grow beyond the inline array, then shrink: leaves a heap-backed small value
+			d.Coeff.Lsh(&d.Coeff, 200)
+			d.Coeff.Rsh(&d.Coeff, 200)
+		}
 	}
 	d.Form = apd.Form(j.Form)
 	d.Negative = j.Neg
